@@ -703,6 +703,89 @@ class WriteThrough:
     ensures = [every_field_in_its_place]
 
 
+def _delete_setup(it):
+    install_fs(it)
+    text = it.fresh(Str, "json_text")
+    it.env.stub(hkjson.dumps, lambda it, data: (it.ctx.ghost.__setitem__("dumped", data), text)[1])
+    c = SObj(CharacteristicCacheFile, label="cache")
+    other, mine = SObj(dict, label="other-entry"), SObj(dict, label="this-entry")
+    has = bool(it.ctx.choose([1, 0]))
+    c.fields["storage_data"] = {"other-id": other, **({"this-id": mine} if has else {})}
+    c.fields["location"] = PathStub("cache.json")
+    it.ctx.ghost.update(other=other, text=text, has=has)
+    return {"self": c, "homekit_id": "this-id"}
+
+
+@contract("aiohomekit.characteristic_cache:CharacteristicCacheFile.async_delete_map", prop="C20")
+class CacheFileDelete:
+    """removing one pairing's entry leaves every other pairing's entry in the store and in the rewritten file (frame)"""
+
+    setup = _delete_setup
+    raises = {}
+
+    def only_this_entry_goes(self, ghost, trace):
+        written = [e for e in trace if e[0] == "write"]
+        return (
+            list(self.storage_data.keys()) == ["other-id"]
+            and self.storage_data["other-id"] is ghost["other"]
+            and len(written) == 1
+            and written[0][2] is ghost["text"]
+            and ghost["dumped"]["pairings"] is self.storage_data
+        )
+
+    ensures = [only_this_entry_goes]
+
+
+def _restore_state_setup(it):
+    from aiohomekit.controller.abstract import AbstractPairing
+
+    _stub_model(it)
+    p = SObj(AbstractPairing, label="pairing")
+    upd = []
+    p.fields.update(id="aa:bb:cc:dd:ee:ff", controller=_Ctl(_CharCache(None)), description=None, _accessories_state=None)
+    p.fields["_update_accessories_state_cache"] = _Recorder("write_through")
+    lst = SObj(list, label="accessories-list")
+    it.ctx.ghost.update(lst=lst)
+    return {
+        "self": p,
+        "accessories": lst,
+        "config_num": it.fresh(Int, "config_num"),
+        "broadcast_key": it.fresh(Bytes, "broadcast_key") if it.ctx.choose([1, 0]) else None,
+        "state_num": it.fresh(Int, "state_num") if it.ctx.choose([1, 0]) else None,
+    }
+
+
+class _Recorder(StubObj):
+    def __init__(self, tag):
+        self.tag = tag
+
+    def sym_call(self, it, *a, **k):
+        it.ctx.trace.append((self.tag, a, k))
+
+
+@contract("aiohomekit.controller.abstract:AbstractPairing.restore_accessories_state", prop="C20")
+class RestoreState:
+    """state handed over by the application at start-up: each of the four fields lands in its own place, then the cache
+    is written through (after the state is in place)"""
+
+    setup = _restore_state_setup
+    raises = {}
+
+    def every_field_in_its_place(self, config_num, broadcast_key, state_num, ghost, trace):
+        st = self._accessories_state
+        return (
+            st is not None
+            and st.accessories is ghost["model"]
+            and ghost["model_of"] is ghost["lst"]
+            and st.config_num == config_num
+            and (st.broadcast_key is None if broadcast_key is None else st.broadcast_key == broadcast_key)
+            and (st.state_num is None if state_num is None else st.state_num == state_num)
+            and len([e for e in trace if e[0] == "write_through"]) == 1
+        )
+
+    ensures = [every_field_in_its_place]
+
+
 # ------------------------------------------------------------------------------------------------- entity map, reading side
 
 VENDOR_CHAR = "F0000001-0000-1000-8000-0026BB765291"
